@@ -1,10 +1,10 @@
 // Package c06: Struct -> Config -> struct is the identity.
 //
-// A case is one (type, value) pair: a struct type assembled with
-// reflect.StructOf from the supported kinds and config tags, and a value of
-// it. The value is merged into an empty Config (NewFrom) and the Config is
-// unpacked into a zero value of the same type; the result must equal the
-// value under exactly the equivalences the property grants.
+// A case is one struct type assembled with reflect.StructOf from the supported
+// kinds and config tags, and a few values of it. Each value is merged into an
+// empty Config and the Config is unpacked into a zero value of the same type;
+// the result must equal the value under exactly the equivalences the property
+// grants.
 package c06
 
 import (
@@ -52,8 +52,11 @@ func reuse(tier string) int {
 // that are legal under the property but known to fail (see Rule).
 const defectEvery = 80
 
+// values drawn per case for the case's type
+const valuesPerCase = 3
+
 func (check) Rule() string {
-	return "one (type, value) pair per case (thorough: 4 consecutive cases share the type): a reflect.StructOf struct of 1-6 fields, depth <= 3, over bool, all int/uint/float kinds, string, time.Duration, *regexp.Regexp, pointers (also to pointers), slices, arrays [1..3]T, map[string]T, interface{}, nested structs by value/pointer/in collections, hand-written named types (Level string, Count int32, Ratio float64, Flag bool, Octets []uint8, Labels map[string]string, structs Endpoint/Hidden/Mixed/Opaque with tags and unexported fields); tags: none, rename, dotted (shared parents, prefix-free), ignore (also on chan/func/map[int] fields), inline/squash on struct fields (own names disjoint from the siblings'), inline map as the only transported field, merge-option tags, foreign tag keys; values: zero, extreme and random numbers, NaN/Inf/-0, durations incl. Min/MaxInt64, regexps, strings with $ . , braces, nil/empty/filled collections, nil pointers and chains ending in nil outside collections. Each pair is round-tripped with PathSep(\".\") and, if the type has no dotted tag name, without it; the zero value of every type is round-tripped too. Every 80th type deliberately contains one legal shape with a known defect (inline map next to named fields; non-nil *[N]T; *map as list/map element). Non-trivial = the type transports >= 3 fields (nested ones counted) or >= 1 container; distinct = distinct (type, value) text."
+	return "per case one struct type and 3 values of it (thorough: 4 consecutive cases share the type, so the runtime's permanent reflect.StructOf cache stays small): a reflect.StructOf struct of 1-6 fields, depth <= 3, over bool, all int/uint/float kinds, string, time.Duration, *regexp.Regexp, pointers (also to pointers), slices, arrays [1..3]T, map[string]T, interface{}, nested structs by value/pointer/in collections, hand-written named types (Level string, Count int32, Ratio float64, Flag bool, Octets []uint8, Labels map[string]string, structs Endpoint/Hidden/Mixed/Opaque/Wrapped with tags, embedded and unexported fields); tags: none, rename, dotted (shared parents, prefix-free), ignore (also on chan/func/map[int]/complex fields), inline/squash on struct fields (own names disjoint from the siblings'), inline map as the only transported field, merge-option tags, foreign tag keys; values: zero, extreme and random numbers, NaN/Inf/-0, durations incl. Min/MaxInt64, regexps, strings with $ . , braces, nil/empty/filled collections, nil pointers and chains ending in nil outside collections. Each value enters as NewFrom(v), NewFrom(&v) or New().Merge(v) and is round-tripped with PathSep(\".\") and, if the type has no dotted tag name, without it; the zero value of every type is round-tripped too. Every 80th type deliberately contains one legal shape with a known defect (in turn: inline map next to named fields; non-nil *[N]T; *map as list/map element; map keyed by a named string type). Non-trivial = the type transports >= 3 fields (nested ones counted) or >= 1 container; distinct = distinct (type, value) text."
 }
 
 func (check) Assumptions() []string {
@@ -63,7 +66,8 @@ func (check) Assumptions() []string {
 		"not generated (outside the quantifier): nil pointers / nil interfaces as list or map elements, arrays directly as map values, pointers to interface{}, inline on pointer-to-struct fields, regexp.Regexp by value; map keys never contain the separator and never parse as integers (C05/C20)",
 		"the untagged field name is the lower-cased Go field name; the top-level names of the intermediate Config are checked against the names derived from the type (this is what makes a merge-side-only and an unpack-side-only naming rule distinguishable)",
 		"VarExp off: '$' in strings is data",
-		"a failure is attributed to a known shape only by a differential re-run: the same Config unpacks into the type with *[N]T replaced by *[]T (resp. element *map replaced by map)",
+		"an empty map or list held by an interface{} map entry comes back as an absent entry: equal, by nil == empty and CanonIfc's absent == nil",
+		"a failure is attributed to a known shape only by a differential re-run: the same Config unpacks into the type with *[N]T replaced by *[]T (resp. element *map by map, map[Level]T by map[string]T)",
 	}
 }
 
@@ -103,6 +107,14 @@ type Opaque struct {
 	a, b int
 }
 
+// Wrapped has embedded fields: one inlined, one under its type name, one pointer.
+type Wrapped struct {
+	Endpoint `config:",inline"`
+	Hidden
+	*Level
+	Extra int `config:"extra"`
+}
+
 var (
 	tIfc      = reflect.TypeOf((*interface{})(nil)).Elem()
 	tString   = reflect.TypeOf("")
@@ -125,7 +137,7 @@ var namedLeaf = []reflect.Type{
 	reflect.TypeOf(Octets(nil)), reflect.TypeOf(Labels(nil)),
 }
 
-var libStructs = []reflect.Type{tEndpoint, tHidden, tMixed, tOpaque}
+var libStructs = []reflect.Type{tEndpoint, tHidden, tMixed, tOpaque, reflect.TypeOf(Wrapped{})}
 
 // types that may only sit behind an ignore tag
 var exotic = []reflect.Type{
@@ -189,9 +201,10 @@ const (
 	defInlineMap
 	defPtrArray
 	defPtrMapElem
+	defNamedKey
 )
 
-var defectNames = []string{"none", "inline-map-with-siblings", "pointer-to-array", "pointer-to-map-element"}
+var defectNames = []string{"none", "inline-map-with-siblings", "pointer-to-array", "pointer-to-map-element", "named-string-map-key"}
 
 type namespace struct {
 	pool []string
@@ -455,6 +468,18 @@ func (g *tgen) topType() reflect.Type {
 		case 0:
 			c = reflect.PtrTo(c)
 		case 1:
+			c = reflect.StructOf([]reflect.StructField{{Name: "X", Type: c, Tag: `config:"x"`}})
+		}
+		inject(c)
+	case defNamedKey:
+		g.shape("defect:map[named-string]T")
+		c := reflect.MapOf(reflect.TypeOf(Level("")), []reflect.Type{prims[1], tString, tIfc, tEndpoint}[r.Intn(4)])
+		switch r.Intn(4) {
+		case 0:
+			c = reflect.PtrTo(c)
+		case 1:
+			c = reflect.SliceOf(c)
+		case 2:
 			c = reflect.StructOf([]reflect.StructField{{Name: "X", Type: c, Tag: `config:"x"`}})
 		}
 		inject(c)
@@ -1225,7 +1250,8 @@ func (c *comparer) structEq(a, b reflect.Value, path string, outer map[string]bo
 
 // rewrite returns t with the suspect shape replaced by its closest accepted
 // relative: mode defPtrArray: *[N]T -> *[]T; mode defPtrMapElem: *..*map as a
-// list/map element -> map. Named types are left alone.
+// list/map element -> map; mode defNamedKey: map[Level]T -> map[string]T.
+// Named types are left alone.
 func rewrite(t reflect.Type, mode int, elem bool) (reflect.Type, bool) {
 	if t.PkgPath() != "" {
 		return t, false
@@ -1252,7 +1278,11 @@ func rewrite(t reflect.Type, mode int, elem bool) (reflect.Type, bool) {
 			return reflect.ArrayOf(t.Len(), et), true
 		}
 	case reflect.Map:
-		if et, ch := rewrite(t.Elem(), mode, true); ch {
+		et, ch := rewrite(t.Elem(), mode, true)
+		if mode == defNamedKey && t.Key().Kind() == reflect.String && t.Key() != tString {
+			return reflect.MapOf(tString, et), true
+		}
+		if ch {
 			return reflect.MapOf(t.Key(), et), true
 		}
 	case reflect.Struct:
@@ -1311,20 +1341,11 @@ func (check) Run(seed int64, tier string, idx int, verbose bool) harness.Result 
 	ti := idx / reuse(tier)
 	tg := &tgen{r: rand.New(rand.NewSource(harness.Mix(seed, "C06type", ti))), forms: map[string]struct{}{}, shapes: map[string]struct{}{}}
 	if ti%defectEvery == defectEvery-1 {
-		tg.defect = 1 + (ti/defectEvery)%3
+		tg.defect = 1 + (ti/defectEvery)%4
 	}
 	T := tg.topType()
 	r := rand.New(rand.NewSource(harness.Mix(seed, "C06", idx)))
-	vg := &vgen{r: r, res: res, defect: tg.defect}
-	v := vg.val(T, false)
-
-	ts, vs := T.String(), show(v)
-	if verbose {
-		fmt.Printf("type  %s\nvalue %s\ndotted=%v defect=%s\n", ts, vs, tg.dotted, defectNames[tg.defect])
-	}
-	if idx < 2 {
-		res.Sample = map[string]interface{}{"type": clip(ts, 1500), "value": clip(vs, 1500)}
-	}
+	ts := T.String()
 	for f := range tg.forms {
 		res.SetAdd("tag_form", f)
 	}
@@ -1333,23 +1354,34 @@ func (check) Run(seed int64, tier string, idx int, verbose bool) harness.Result 
 	}
 	shapes(res, T, "top", 0)
 	res.SetAdd("defect_shape", defectNames[tg.defect])
+	var nf, nc int
+	typeStats(T, &nf, &nc, 0)
 
-	ok := roundTrip(res, T, v, true, "value", ts, vs, verbose)
-	if !tg.dotted {
-		ok = roundTrip(res, T, v, false, "value", ts, vs, verbose) && ok
+	for k := 0; k < valuesPerCase; k++ {
+		vg := &vgen{r: r, res: res, defect: tg.defect}
+		v := vg.val(T, false)
+		vs := show(v)
+		if verbose {
+			fmt.Printf("type  %s\nvalue %s\ndotted=%v defect=%s\n", ts, vs, tg.dotted, defectNames[tg.defect])
+		}
+		if idx < 2 && k == 0 {
+			res.Sample = map[string]interface{}{"type": clip(ts, 1500), "value": clip(vs, 1500)}
+		}
+		ok := roundTrip(res, T, v, true, r.Intn(4), "value", ts, vs, verbose)
+		if !tg.dotted {
+			ok = roundTrip(res, T, v, false, r.Intn(4), "value", ts, vs, verbose) && ok
+		}
+		if ok && (nf >= 3 || nc >= 1) {
+			h := fnv.New64a()
+			h.Write([]byte(ts))
+			h.Write([]byte{0})
+			h.Write([]byte(vs))
+			res.Key(fmt.Sprintf("%016x", h.Sum64()))
+		}
 	}
 	if idx%reuse(tier) == 0 {
 		z := (&vgen{zero: true}).val(T, false)
-		roundTrip(res, T, z, true, "zero-value", ts, show(z), verbose)
-	}
-	var nf, nc int
-	typeStats(T, &nf, &nc, 0)
-	if ok && (nf >= 3 || nc >= 1) {
-		h := fnv.New64a()
-		h.Write([]byte(ts))
-		h.Write([]byte{0})
-		h.Write([]byte(vs))
-		res.Key(fmt.Sprintf("%016x", h.Sum64()))
+		roundTrip(res, T, z, true, 0, "zero-value", ts, show(z), verbose)
 	}
 	return res.Done()
 }
@@ -1388,7 +1420,7 @@ func shapes(res *harness.R, t reflect.Type, parent string, depth int) {
 
 // roundTrip runs value -> Config -> zero value of T and reports deviations.
 // It returns false if the pair did not make it through both library calls.
-func roundTrip(res *harness.R, T reflect.Type, v reflect.Value, sep bool, what, ts, vs string, verbose bool) bool {
+func roundTrip(res *harness.R, T reflect.Type, v reflect.Value, sep bool, entry int, what, ts, vs string, verbose bool) bool {
 	var opts []ucfg.Option
 	mode := "no PathSep"
 	if sep {
@@ -1403,13 +1435,30 @@ func roundTrip(res *harness.R, T reflect.Type, v reflect.Value, sep bool, what, 
 	var c *ucfg.Config
 	var err error
 	res.Eval(1)
-	panicked, pv, where := harness.Safe(func() { c, err = ucfg.NewFrom(v.Interface(), opts...) })
+	// the value is handed over by value, by pointer, or merged into New()
+	how := "NewFrom(value)"
+	panicked, pv, where := harness.Safe(func() {
+		switch entry {
+		case 1:
+			how = "NewFrom(&value)"
+			p := reflect.New(T)
+			p.Elem().Set(v)
+			c, err = ucfg.NewFrom(p.Interface(), opts...)
+		case 2:
+			how = "New().Merge(value)"
+			c = ucfg.New()
+			err = c.Merge(v.Interface(), opts...)
+		default:
+			c, err = ucfg.NewFrom(v.Interface(), opts...)
+		}
+	})
+	res.SetAdd("entry", how)
 	if panicked {
-		res.Violate("panic:"+innermost(where), "NewFrom panicked: %q at %s; %s", pv, where, witness())
+		res.Violate("panic:"+innermost(where), "%s panicked: %q at %s; %s", how, pv, where, witness())
 		return false
 	}
 	if err != nil {
-		res.Violate("newfrom-error:"+reason(err), "NewFrom failed (%s): %s; %s", reason(err), clip(message(err), 300), witness())
+		res.Violate("merge-error:"+reason(err), "%s failed (%s): %s; %s", how, reason(err), clip(message(err), 300), witness())
 		return false
 	}
 
@@ -1443,6 +1492,8 @@ func roundTrip(res *harness.R, T reflect.Type, v reflect.Value, sep bool, what, 
 		sig := "panic:" + innermost(where)
 		if alt, ch := rewrite(T, defPtrMapElem, false); ch && unpacksInto(c, alt, opts) {
 			sig = "pointer-to-map-element-panics"
+		} else if alt, ch := rewrite(T, defNamedKey, false); ch && unpacksInto(c, alt, opts) {
+			sig = "named-string-map-key-panics"
 		}
 		res.Violate(sig, "Unpack panicked: %q at %s; %s", pv, where, witness())
 		return false
